@@ -5,7 +5,9 @@
    (strictly increasing transitions, consecutive transitions at least as far apart as the two
    adjacent offset changes, offsets within a day).  Non-vacuity: tzfile/TzExamples.v. *)
 From Coq Require Import ZArith List Bool.
-From V Require Import tzfile.TzModel tzfile.TzSpec tzfile.TzData tzfile.TzFixedThm tzfile.TzFinalThm.
+Import ListNotations.
+From V Require Import tzfile.TzModel tzfile.TzSpec tzfile.TzData tzfile.TzFixedThm tzfile.TzFinalThm
+  tzfile.TzC06Thm tzfile.TzGenericModel tzfile.TzGenericThm tzfile.TzSameThm.
 Open Scope Z_scope.
 
 (* fromutc yields the wall reading u + off(u) with fold = "an earlier instant has the same wall
@@ -21,6 +23,37 @@ Theorem C04_distinct_instants_distinct_wall_fold : forall d, good d = true ->
   wf_zone (zone_of d) = true -> forall u1 u2, fromutc d u1 = fromutc d u2 -> u1 = u2.
 Proof. exact tzfile_injective_lemma. Qed.
 Print Assumptions C04_distinct_instants_distinct_wall_fold.
+
+(* the offset and abbreviation reported for the converted datetime are those of the ttinfo in force
+   at the instant (ttinfo_at = _get_ttinfo(_find_last_transition(u, in_utc=True))) *)
+Theorem C04_reports_ttinfo_in_force : forall d, good d = true -> wf_zone (zone_of d) = true -> forall u,
+  exists w f tt, fromutc d u = Ok (w, f) /\ ttinfo_at d u = Ok (Some tt) /\
+    find_ttinfo d w f = Ok (Some tt) /\ w = u + tt_off tt /\
+    utcoffset d w f = Ok (tt_off tt) /\ tzname d w f = Ok (Some (tt_abbr tt)).
+Proof. exact same_ttinfo_lemma. Qed.
+Print Assumptions C04_reports_ttinfo_in_force.
+
+(* the same for a file as it is read: the decoder invariant is discharged (C06_decoder_invariant) *)
+Theorem C04_read_tzfile_roundtrip : forall bytes r d, parse_tzif bytes = Ok r -> build r = Ok d ->
+  r_types r <> [] -> wf_zone (zone_of d) = true -> forall u,
+  exists w f, fromutc d u = Ok (w, f) /\ dt_utcoffset d w f = Ok (off (zone_of d) u) /\
+              to_utc d w f = Ok u /\ w = local (zone_of d) u /\ f = fold_spec (zone_of d) u.
+Proof. exact read_roundtrip_lemma. Qed.
+Print Assumptions C04_read_tzfile_roundtrip.
+
+(* the generic layer _tzinfo.fromutc / _fold_status (tzical, tzlocal) under the five obligations
+   a zone class using it has to meet (see tzfile/TzGenericThm.v) *)
+Theorem C04_generic_roundtrip : forall (UO DST : Z -> bool -> Z) (z : zone) (so : Z),
+  wf_zone z = true ->
+  (forall x f, UO x f - DST x f = so) ->
+  (forall u, DST (u + so) true = off z u - so) ->
+  (forall w, g_is_ambiguous UO w = true <-> length (preimages z w) = 2%nat) ->
+  (forall a b, a < b -> local z a = local z b -> off z b = so) ->
+  (forall u, UO (local z u) (fold_spec z u) = off z u) ->
+  forall u, let (w, f) := g_fromutc UO DST u in
+            w = local z u /\ f = fold_spec z u /\ UO w f = off z u /\ w - UO w f = u.
+Proof. exact generic_roundtrip_lemma. Qed.
+Print Assumptions C04_generic_roundtrip.
 
 Theorem C04_fixed_roundtrip : forall o u,
   let (w, f) := fixed_fromutc o u in
